@@ -31,12 +31,18 @@ _PRISTINE_DIFF = dict(dn.notebook_differs)
 _PRISTINE_CWD = os.getcwd()
 
 
+def recursion_flag():
+    """the re-entrancy flag of the string merger, if this tree keeps it where the pinned tree does (a private
+    attribute: its absence is not a violation, the watcher simply has nothing to watch)"""
+    return bool(getattr(mg._merge_strings, "recursion", False))
+
+
 def state_snapshot():
     return {
         "predicates": sorted(dn.notebook_predicates.keys()),
         "differs": sorted(dn.notebook_differs.keys()),
         "differ_names": {k: getattr(v, "__name__", repr(v)) for k, v in sorted(dn.notebook_differs.items())},
-        "recursion": bool(mg._merge_strings.recursion),
+        "recursion": recursion_flag(),
         "cwd": os.getcwd(),
     }
 
@@ -44,7 +50,7 @@ def state_snapshot():
 def state_dirty():
     return (set(dn.notebook_predicates.keys()) != set(_PRISTINE_PRED.keys())
             or dict(dn.notebook_differs) != _PRISTINE_DIFF
-            or mg._merge_strings.recursion)
+            or recursion_flag())
 
 
 def hygiene():
@@ -59,9 +65,11 @@ def hygiene():
         for k in list(dn.notebook_differs.keys()):
             del dn.notebook_differs[k]
         dn.notebook_differs.update(_PRISTINE_DIFF)
-        mg._merge_strings.recursion = False
-    dn.compare_text_approximate.cache_clear()
-    dn._compare_mimedata_strings.cache_clear()
+        if hasattr(mg._merge_strings, "recursion"):
+            mg._merge_strings.recursion = False
+    for f in (getattr(dn, "compare_text_approximate", None), getattr(dn, "_compare_mimedata_strings", None)):
+        if hasattr(f, "cache_clear"):
+            f.cache_clear()
     return dirty
 
 
@@ -112,3 +120,22 @@ def count_calls(col, funcs, prefix="reached:"):
     for code in codes:
         mon.set_local_events(tool, code, mon.events.PY_START)
     return True
+
+
+def call_in_thread(fn, *a, **kw):
+    """run fn in a fresh non-main thread (a server's worker thread, a notebook extension's executor) and hand back
+    its result or re-raise its exception here; the library was imported by the main thread"""
+    import threading
+    box = {}
+
+    def target():
+        try:
+            box["value"] = fn(*a, **kw)
+        except BaseException as e:       # re-raised in the caller
+            box["error"] = e
+    t = threading.Thread(target=target, name="vmon-caller-thread")
+    t.start()
+    t.join()
+    if "error" in box:
+        raise box["error"]
+    return box["value"]
